@@ -18,7 +18,7 @@ Ltac forms H1 H2 :=
   rewrite H1;
   match goal with |- context[lower ?h] => let v := eval vm_compute in (lower h) in change (lower h) with v end;
   cbv beta iota zeta; close_tests; cbv beta iota zeta;
-  try unfold base_offset; cbn [nth_tok nth_error]; close_tests; cbv beta iota; rewrite H2; reflexivity.
+  try unfold base_offset; cbn [nth_tok nth_error tok_is andb]; close_tests; cbv beta iota; cbn [andb]; rewrite ?H2; reflexivity.
 
 Definition load_names : list string := ["lb"; "lh"; "lw"; "lbu"; "lhu"; "jalr"; "c.lw"].
 Definition store_names : list string := ["sb"; "sh"; "sw"; "c.sw"].
@@ -44,7 +44,7 @@ Proof.
       rewrite H1, H1';
       match goal with |- context[lower ?h] => let v := eval vm_compute in (lower h) in change (lower h) with v end;
       cbv beta iota zeta; close_tests; cbv beta iota zeta;
-      cbn [nth_tok nth_error]; close_tests; cbv beta iota; rewrite H2; reflexivity |]).
+      cbn [nth_tok nth_error tok_is andb]; close_tests; cbv beta iota; rewrite ?H2; reflexivity |]).
   contradiction.
 Qed.
 
